@@ -129,9 +129,15 @@ def failedTrace (st : RibSt) (oks fails : List Nat) : RibSt :=
   { st with failedIds := fails.eraseDups ++ st.failedIds }
 
 def handleAdd (st : RibSt) (op : Op) (oks fails : List Nat) (fatal : Bool) : RibSt :=
-  let st := { st with entsFresh := false }
   let st := failedTrace st oks fails
   let st := { st with ops := st.ops.insert op.id op, adds := st.adds.insert op.id op }
+  -- the contents last observed, brought up to date by what the implementation has just
+  -- acknowledged (an acknowledged ADD / REPLACE installs its entry): what a DELETE that follows
+  -- before the next observation — a second writer in a gap — is judged on
+  let st := if fatal then { st with entsFresh := false } else
+    { st with implEnts := oks.foldl (fun m id => match st.adds.get? id with
+        | some o => m.insert (o.ni, o.key) o.pl
+        | none => m) st.implEnts }
   let st := st.covr ("add." ++ tryName (st.model.classify op))
   let st := ackFold st oks
   if st.diverged then st else
